@@ -160,7 +160,7 @@ def _worker(args):
         # unconditional (flex) theorems also fresh2, the store clauses of wfs_b and nodep - reported when the instance
         # has unordered machine post-buffers (the class those theorems speak about)
         init_clauses = {"C01": ["fresh"], "C04": ["fresh2"], "C03": ["claims", "nodep"], "C02": [], "C07": ["agv_phase"], "C05": [], "C11": [], "C09": []}[prop]
-        flex_hyps = ["placement", "loc", "capacity", "flags", "fresh2", "nodep"] + (["idle_unclaimed", "pre_ok"] if prop in ("C05", "C07") else [])
+        flex_hyps = ["placement", "loc", "capacity", "flags", "fresh2", "nodep"] + (["pre_ok"] if prop in ("C05", "C07") else [])
         nfresh = nflex = 0
         for e in eps:
             if e.first < e.last:
